@@ -107,17 +107,6 @@ theorem encode_octet_spec (fuel : Nat) (undef : Nat → BitVec 64) (s : Snk) (d 
 theorem neg_enodata_lt : NEG_ENODATA.toInt < (0#32).toInt := by decide
 theorem errOf_enodata : errOf NEG_ENODATA = .enodata := by decide
 
-theorem enodata_iff (rc : BitVec 32) : errOf rc = .enodata ↔ rc = -(61#32) := by
-  constructor
-  · intro h
-    unfold errOf at h
-    have : (-rc).toNat = 61 := by
-      revert h; split <;> intro h <;> first | assumption | rfl | cases h
-    have h2 : -rc = 61#32 := BitVec.eq_of_toNat_eq (by rw [this]; rfl)
-    have : rc = -(-rc) := by simp
-    rw [this, h2]
-  · intro h; rw [h]; decide
-
 theorem encode_loop (undef : Nat → BitVec 64) (flags : BitVec 32) :
     ∀ (src : Src) (fuel : Nat) (snk : Snk), SrcOk src → SnkOk snk → src.length < fuel →
       ∃ r, Ufw.Gen.SlipFns.rfc1055_encode.loop1 undef fuel flags src snk = Res.val r ∧
